@@ -266,6 +266,11 @@ func c01(c *Ctx) {
 				e, ok = e2, true
 			}
 		}
+		if !ok {
+			if e2 := closureSibling(want, k); e2 != nil {
+				e, ok = e2, true
+			}
+		}
 		if ok {
 			if got[k] > e.Count && !e.DataInvariant {
 				r.Fail("R1.bounds", k, pos, fmt.Sprintf("%d unproven checks of this shape, only %d were triaged (%s): a further instance appeared", got[k], e.Count, e.Reason))
@@ -305,6 +310,42 @@ func c01(c *Ctx) {
 	}
 
 	c01other(c, roots, reach, tab)
+}
+
+// closureSibling looks a site key up under the names of the sibling closures of its function:
+// anonymous functions are numbered in source order, so adding or removing one closure (a defer
+// turned into explicit calls, a new deferred clean-up) renumbers the others. The site is the
+// triaged one when exactly one sibling number has an entry for the same kind and expression and
+// the key's own number has none.
+func closureSibling(want map[string]*triageEntry, k string) *triageEntry {
+	sp := strings.Index(k, " ")
+	if sp < 0 {
+		return nil
+	}
+	fn, rest := k[:sp], k[sp:]
+	d := strings.LastIndex(fn, "$")
+	if d < 0 || d == len(fn)-1 {
+		return nil
+	}
+	for _, ch := range fn[d+1:] {
+		if ch < '0' || ch > '9' {
+			return nil
+		}
+	}
+	var found *triageEntry
+	for m := 1; m <= 9; m++ {
+		alt := fmt.Sprintf("%s$%d%s", fn[:d], m, rest)
+		if alt == k {
+			continue
+		}
+		if e, ok := want[alt]; ok {
+			if found != nil && found != e {
+				return nil
+			}
+			found = e
+		}
+	}
+	return found
 }
 
 func srcLine(p *core.Prog, s core.BoundsSite) string {
@@ -403,6 +444,12 @@ func c01other(c *Ctx, roots []*ssa.Function, reach map[*ssa.Function]bool, tab *
 		if e, ok := want[k]; ok && count[k] <= e.Count {
 			r.Pass("R3.assert-panic", k, posOf[k], "triaged: "+e.Reason)
 			continue
+		}
+		if _, own := want[k]; !own {
+			if e := closureSibling(want, k); e != nil && count[k] <= e.Count {
+				r.Pass("R3.assert-panic", k, posOf[k], "triaged (closure renumbered): "+e.Reason)
+				continue
+			}
 		}
 		if dump {
 			fmt.Fprintf(os.Stderr, "UNTRIAGED-R3\t%s\tx%d\t%s\n", k, count[k], posOf[k])
@@ -597,6 +644,35 @@ func locallyGuarded(s core.BoundsSite) string {
 				continue
 			}
 			switch x := in.(type) {
+			case *ssa.Call:
+				// slices.Delete(x, i, i+1) with i := slices.Index*(x, ...) tested non-negative:
+				// 0 <= i < len(x), so i+1 <= len(x) (the library form of cutting one element out)
+				if core.CalleeID(x) == "slices.Delete" && len(x.Call.Args) == 3 {
+					ic, ok := core.Unwrap(x.Call.Args[1]).(*ssa.Call)
+					if !ok || (core.CalleeID(ic) != "slices.IndexFunc" && core.CalleeID(ic) != "slices.Index") || len(ic.Call.Args) < 1 || ic.Call.Args[0] != x.Call.Args[0] {
+						continue
+					}
+					bo, ok := x.Call.Args[2].(*ssa.BinOp)
+					if !ok || bo.Op != token.ADD || bo.X != x.Call.Args[1] {
+						continue
+					}
+					if k, isC := core.ConstInt(bo.Y); !isC || k != 1 {
+						continue
+					}
+					nonNeg := core.AnyFact(func(f core.Fact) bool {
+						return core.CmpFact(f, func(op token.Token, a, c ssa.Value) bool {
+							if a != ssa.Value(ic) {
+								return false
+							}
+							k, isC := core.ConstInt(c)
+							return isC && ((op == token.GEQ && k == 0) || (op == token.GTR && k == -1) || (op == token.NEQ && k == -1))
+						})
+					})
+					if core.InstrGuarded(x, nonNeg, nil) == nil {
+						return "slices.Delete(x, i, i+1) with i returned by slices.Index* on the same slice and tested non-negative: 0 <= i < i+1 <= len(x)"
+					}
+				}
+				continue
 			case *ssa.Slice:
 				bound := x.High
 				if bound == nil {
@@ -607,6 +683,26 @@ func locallyGuarded(s core.BoundsSite) string {
 				}
 				if why := chunkLoopGuarded(s.Fn, x); why != "" {
 					return why
+				}
+				// x[len(k):] (or x[:len(x)-len(k)]) on the true edge of bytes.HasPrefix(x, k) /
+				// HasSuffix(x, k): the library tests len(x) >= len(k) first
+				if x.High == nil && x.Low != nil {
+					hasPfx := core.AnyFact(func(f core.Fact) bool {
+						if f.Op != token.ILLEGAL || !f.Truth {
+							return false
+						}
+						cc, ok := core.Unwrap(f.V).(*ssa.Call)
+						if !ok || (core.CalleeID(cc) != "bytes.HasPrefix" && core.CalleeID(cc) != "strings.HasPrefix") || len(cc.Call.Args) != 2 {
+							return false
+						}
+						return (cc.Call.Args[0] == x.X || core.SameExpr(core.Unwrap(cc.Call.Args[0]), core.Unwrap(x.X))) &&
+							core.IsLenOf(x.Low, func(v ssa.Value) bool {
+								return v == cc.Call.Args[1] || core.SameExpr(core.Unwrap(v), core.Unwrap(cc.Call.Args[1])) || (core.AccessPath(v) != "" && core.AccessPath(v) == core.AccessPath(cc.Call.Args[1]))
+							})
+					})
+					if core.InstrGuarded(x, hasPfx, nil) == nil {
+						return "x[len(k):] on the true edge of HasPrefix(x, k): len(x) >= len(k)"
+					}
 				}
 				if why := intervalGuarded(x); why != "" {
 					return why
@@ -1281,12 +1377,51 @@ var totalLibraryFuncs = map[string]bool{
 	"(github.com/ethereum/go-ethereum/p2p/enode.ID).String":         true,
 	"(github.com/ethereum/go-ethereum/p2p/enode.ID).TerminalString": true,
 	"(github.com/ethereum/go-ethereum/p2p/enode.ID).GoString":       true,
-	"bytes.Clone":        true,
-	"slices.Clone":       true,
-	"strings.Clone":      true,
-	"strconv.Itoa":       true,
-	"strconv.FormatUint": true,
-	"strconv.FormatInt":  true,
+	// total on every input (they compare lengths before they slice or index):
+	"bytes.CutPrefix":                             true,
+	"bytes.CutSuffix":                             true,
+	"bytes.TrimPrefix":                            true,
+	"bytes.TrimSuffix":                            true,
+	"bytes.HasPrefix":                             true,
+	"bytes.HasSuffix":                             true,
+	"bytes.Equal":                                 true,
+	"bytes.Compare":                               true,
+	"bytes.Contains":                              true,
+	"bytes.Index":                                 true,
+	"bytes.IndexByte":                             true,
+	"strings.CutPrefix":                           true,
+	"strings.CutSuffix":                           true,
+	"strings.TrimPrefix":                          true,
+	"strings.TrimSuffix":                          true,
+	"strings.HasPrefix":                           true,
+	"strings.HasSuffix":                           true,
+	"slices.Contains":                             true,
+	"slices.ContainsFunc":                         true,
+	"slices.Index":                                true,
+	"slices.IndexFunc":                            true,
+	"slices.Equal":                                true,
+	"slices.Compare":                              true,
+	"slices.Reverse":                              true,
+	"slices.Sort":                                 true,
+	"slices.SortFunc":                             true,
+	"slices.SortStableFunc":                       true,
+	"slices.BinarySearch":                         true,
+	"slices.BinarySearchFunc":                     true,
+	"slices.Chunk":                                false, // panics for n < 1
+	"encoding/binary.AppendUvarint":               true,
+	"encoding/binary.AppendVarint":                true,
+	"(encoding/binary.bigEndian).AppendUint16":    true,
+	"(encoding/binary.bigEndian).AppendUint32":    true,
+	"(encoding/binary.bigEndian).AppendUint64":    true,
+	"(encoding/binary.littleEndian).AppendUint16": true,
+	"(encoding/binary.littleEndian).AppendUint32": true,
+	"(encoding/binary.littleEndian).AppendUint64": true,
+	"bytes.Clone":                                 true,
+	"slices.Clone":                                true,
+	"strings.Clone":                               true,
+	"strconv.Itoa":                                true,
+	"strconv.FormatUint":                          true,
+	"strconv.FormatInt":                           true,
 }
 
 func totalLibraryCall(p *core.Prog, s core.BoundsSite) string {
